@@ -17,6 +17,13 @@ import (
 type runner struct {
 	c       *lib.Ctx
 	skipped map[string]bool
+	hist    []string // listener ops since the last history marker (a stall may need the whole history)
+}
+
+// history starts a new history (comment line in both streams).
+func (r *runner) history(name string) {
+	r.c.Comment("history " + name)
+	r.hist = nil
 }
 
 func (r *runner) run(op string) string {
@@ -36,18 +43,42 @@ func (r *runner) run(op string) string {
 // do: one op; a dead or stalled child is confirmed by an isolated re-run (fresh child, this op
 // alone) before it is reported.
 func (r *runner) do(sig, op string) string {
+	bad := func(a string) bool { return a == "dead" || a == "stalled" || strings.HasPrefix(a, "listener-") }
+	isSrv := strings.HasPrefix(op, "srv.")
 	ans := r.run(op)
-	if ans == "dead" || ans == "stalled" || strings.HasPrefix(ans, "listener-") {
-		ans2 := r.run(op)
-		if ans2 == "dead" || ans2 == "stalled" || strings.HasPrefix(ans2, "listener-") {
-			r.c.Fail("C08:csptp:"+sig+":"+ans2, "a single crafted input terminates or stalls the process that received it",
-				[]string{op}, map[string]any{"first": ans, "isolated_rerun": ans2, "stderr": lastStderr})
-		} else {
-			r.c.Count("flaky-not-reproduced")
-		}
+	if isSrv {
+		r.hist = append(r.hist, op)
+	}
+	if !bad(ans) {
+		return ans
+	}
+	// 1. the op alone against a fresh child
+	ans2 := r.run(op)
+	if bad(ans2) {
+		r.c.Fail("C08:csptp:"+sig+":"+ans2, "a single crafted input terminates or stalls the process that received it",
+			[]string{op}, map[string]any{"first": ans, "isolated_rerun": ans2, "stderr": lastStderr})
 		return ans2
 	}
-	return ans
+	// 2. the history since the last marker against a fresh child (the damage may have been done by an earlier datagram)
+	if isSrv && len(r.hist) > 1 {
+		lsn.kill()
+		last := ""
+		for _, h := range r.hist {
+			last = lib.Try(func() string { return exec1(strings.Fields(h)) })
+			if bad(last) {
+				break
+			}
+		}
+		if bad(last) {
+			r.c.Fail("C08:csptp:"+sig+":"+last+"-after-history", "after this history of datagrams the process that received them is dead or no longer takes up datagrams",
+				append([]string(nil), r.hist...), map[string]any{"first": ans, "op_alone": ans2, "history_rerun": last, "stderr": lastStderr})
+			lsn.kill()
+			r.hist = nil
+			return last
+		}
+	}
+	r.c.Count("flaky-not-reproduced")
+	return ans2
 }
 
 func dgramOp(port, cidx int, b []byte) string {
@@ -125,7 +156,7 @@ func genListener(c *lib.Ctx) {
 		return n
 	}
 
-	c.Comment("history baseline: what a fresh listener does with a well-formed request pair")
+	rn.history("baseline: what a fresh listener does with a well-formed request pair")
 	base := probe(-1, nil)
 	if base < 0 {
 		c.NotExecuted("CSPTP listener: baseline probe did not complete")
@@ -137,7 +168,7 @@ func genListener(c *lib.Ctx) {
 	}
 
 	// ---- corpus: lengths, truncation, oversize, every header / TLV field, every byte
-	c.Comment("history corpus: lengths")
+	rn.history("corpus: lengths")
 	sy, fu1, fu0 := reqSync(7), reqFollowUp(7, 1), reqFollowUp(7, 0)
 	for _, port := range []int{319, 320} {
 		for _, tmpl := range [][]byte{sy, fu1} {
@@ -158,7 +189,7 @@ func genListener(c *lib.Ctx) {
 			}
 		}
 	}
-	c.Comment("history corpus: header and TLV fields")
+	rn.history("corpus: header and TLV fields")
 	vals := func(w int) []uint64 {
 		max := uint64(1)<<(8*uint(w)) - 1
 		if w == 8 {
@@ -192,8 +223,26 @@ func genListener(c *lib.Ctx) {
 	}
 	rn.do("listener", "srv.drain")
 
+	// ---- 8-bit header fields exhaustively (the first byte drives the branching)
+	rn.history("corpus: 8-bit header fields, all values")
+	offs := []int{0}
+	if c.Thorough() {
+		offs = []int{0, 1, 4, 5, 32, 33}
+	}
+	for _, tc := range []struct {
+		port int
+		b    []byte
+	}{{319, sy}, {320, fu1}, {319, fu0}, {320, sy}} {
+		for _, off := range offs {
+			for v := 0; v < 256; v++ {
+				countVerdict(rn.do("listener", dgramOp(tc.port, 7+v%4, setField(tc.b, off, 1, uint64(v)))))
+			}
+		}
+	}
+	rn.do("listener", "srv.drain")
+
 	// ---- a response pair fed to the listener (no reflection)
-	c.Comment("history responses fed to the listener")
+	rn.history("responses fed to the listener")
 	now := time.Now()
 	for _, flag := range []uint32{0, 1} {
 		rs := respSync(9, 0)
@@ -211,7 +260,7 @@ func genListener(c *lib.Ctx) {
 	// ---- histories: several clients interleaved
 	nh := c.Scale(14, 300)
 	for h := 0; h < nh; h++ {
-		c.Comment(fmt.Sprintf("history %d", h))
+		rn.history(strconv.Itoa(h))
 		var hist []string
 		k := 2 + r.Intn(4)
 		queues := make([][]step, k)
@@ -307,7 +356,7 @@ func genListener(c *lib.Ctx) {
 	}
 
 	// ---- bursts: the sixteen loops working at the same time
-	c.Comment("history bursts")
+	rn.history("bursts")
 	for i := 0; i < c.Scale(6, 150); i++ {
 		port := 319 + r.Intn(2)
 		var items []string
